@@ -789,7 +789,7 @@ def proto_sem():
     add2("Fourth", [pf(1, "f", "singular", "double")], parent="Outer", text=False)
     rfq = d.fq("Rec")
     add2("Rec", [pf(1, "next", "singular", "message", rfq), pf(2, "kids", "repeated", "message", rfq), pf(3, "v", "singular", "int32"),
-                 pf(4, "m", "map", "message", rfq, key="string"), pf(5, "cnt", "oneof", "uint64", oneof="o"), pf(6, "txt", "oneof", "string", oneof="o")])
+                 pf(4, "m", "map", "message", rfq, key="string"), pf(5, "alt", "oneof", "message", rfq, oneof="o"), pf(6, "txt", "oneof", "string", oneof="o")])
     docs.append(d)
 
     d = PDocB("ptwo", "p2x", syntax="proto2")
